@@ -118,15 +118,17 @@ NextWith(GC(_)) == \/ CopyToken(GC) \/ NormalizeInt(GC) \/ ElideEmptyLet
 (* Declarative clauses over a pair of streams.                              *)
 
 \* drop binding-less `let in' pairs and formals trailing commas, normalise integers
-RECURSIVE CanonFrom(_, _)
-CanonFrom(ts, k) ==
-    IF k > Len(ts) THEN <<>>
-    ELSE IF k + 1 <= Len(ts) /\ ts[k].c = "kw" /\ ts[k].s = "let" /\ ts[k+1].c = "kw" /\ ts[k+1].s = "in"
-         THEN CanonFrom(ts, k + 2)
+\* (an elided pair may expose another one - `let let in in' -, so the reduction works on a stack: an `in' that
+\*  meets a `let' on top of the stack cancels it)
+RECURSIVE CanonFrom(_, _, _)
+CanonFrom(ts, k, acc) ==
+    IF k > Len(ts) THEN acc
+    ELSE IF ts[k].c = "kw" /\ ts[k].s = "in" /\ acc # <<>> /\ acc[Len(acc)] = "let"
+         THEN CanonFrom(ts, k + 1, SubSeq(acc, 1, Len(acc) - 1))
     ELSE IF ts[k].s = "," /\ ts[k].c = "dl" /\ IsFormalsClose(ts, k + 1)
-         THEN CanonFrom(ts, k + 1)
-    ELSE <<ts[k].n>> \o CanonFrom(ts, k + 1)
-CanonToks(s) == CanonFrom(Toks(s), 1)
+         THEN CanonFrom(ts, k + 1, acc)
+    ELSE CanonFrom(ts, k + 1, Append(acc, ts[k].n))
+CanonToks(s) == CanonFrom(Toks(s), 1, <<>>)
 
 C01_TokensPreserved(i, o) == CanonToks(i) = CanonToks(o)
 
@@ -134,20 +136,23 @@ CmtKeys(s) == Map(Cmts(s), CmtKey)
 C03_EachOnceInOrder(i, o) == CmtKeys(i) = CmtKeys(o)
 
 \* comments and solid tokens (after the let-in normalisation), in order
-RECURSIVE SolidFrom(_, _)
-SolidFrom(s, k) ==
+\* item indices of the `let' / `in' keywords of binding-less let wrappers (nested ones included: stack discipline,
+\* st holds the item index of every pending token, 0 for a token that is not `let')
+RECURSIVE ElidedFrom(_, _, _, _)
+ElidedFrom(s, k, st, el) ==
+    IF k > Len(s) THEN el
+    ELSE IF ~IsTok(s[k]) THEN ElidedFrom(s, k + 1, st, el)
+    ELSE IF s[k].c = "kw" /\ s[k].s = "in" /\ st # <<>> /\ st[Len(st)] # 0
+         THEN ElidedFrom(s, k + 1, SubSeq(st, 1, Len(st) - 1), el \cup {st[Len(st)], k})
+    ELSE IF s[k].c = "kw" /\ s[k].s = "let" THEN ElidedFrom(s, k + 1, Append(st, k), el)
+    ELSE ElidedFrom(s, k + 1, Append(st, 0), el)
+RECURSIVE SolidFrom(_, _, _)
+SolidFrom(s, k, el) ==
     IF k > Len(s) THEN <<>>
-    ELSE IF IsCmt(s[k]) THEN <<"c:" \o s[k].s>> \o SolidFrom(s, k + 1)
-    ELSE IF IsSolid(s[k]) THEN
-        LET rest == SelectSeq(SubSeq(s, k + 1, Len(s)), IsTok) IN
-        LET prev == SelectSeq(SubSeq(s, 1, k - 1), IsTok) IN
-        IF s[k].c = "kw" /\ s[k].s = "let" /\ rest # <<>> /\ rest[1].c = "kw" /\ rest[1].s = "in"
-            THEN SolidFrom(s, k + 1)
-        ELSE IF s[k].c = "kw" /\ s[k].s = "in" /\ prev # <<>> /\ prev[Len(prev)].c = "kw" /\ prev[Len(prev)].s = "let"
-            THEN SolidFrom(s, k + 1)
-        ELSE <<"t:" \o s[k].n>> \o SolidFrom(s, k + 1)
-    ELSE SolidFrom(s, k + 1)
-SolidView(s) == SolidFrom(s, 1)
+    ELSE IF IsCmt(s[k]) THEN <<"c:" \o s[k].s>> \o SolidFrom(s, k + 1, el)
+    ELSE IF IsSolid(s[k]) /\ k \notin el THEN <<"t:" \o s[k].n>> \o SolidFrom(s, k + 1, el)
+    ELSE SolidFrom(s, k + 1, el)
+SolidView(s) == SolidFrom(s, 1, ElidedFrom(s, 1, <<>>, {}))
 C03_Sides(i, o) == SolidView(i) = SolidView(o)
 
 C18_Normal(o) == AllGapsNormal(o)
